@@ -466,7 +466,16 @@ impl TTS {
         fn compute_bookmark_element<'c, 's:'c, 'm, 'r>(value: &TTSCommandValue, tag_and_attr: &str, rules_with_context: &'r mut SpeechRulesWithContext<'c, 's, 'm>, mathml: Element<'c>) -> Result<String> {
             match value {
                 TTSCommandValue::XPath(xpath) => {
-                    let id = xpath.replace::<String>(rules_with_context, mathml)?;
+                    // the id is a name, not text to be spoken: it must not go through the character translation ('x' -> spell out)
+                    let id = match xpath.evaluate(rules_with_context.get_context(), mathml)? {
+                        sxd_xpath::Value::Nodeset(nodes) => {
+                            if nodes.size() == 0 {
+                                bail!("During replacement, no matching element found");
+                            }
+                            nodes.document_order()[0].string_value()
+                        },
+                        value => value.into_string(),
+                    };
                     return Ok( format!("<{}='{}'/>", tag_and_attr, id) );
                 },
                 _ => bail!("Implementation error: found bookmark value that did not evaluate to a string"),
